@@ -16,7 +16,8 @@ CHECKS = {
               "one request and one response envelope per id on the tap; plus a smoke job (TestC01Net) running 1..16 concurrent unary calls over a real loopback WebSocket pair and over two GoatOverHttp endpoints (wall-clock budget, overrun = inconclusive). Non-trivial = (>=2 calls and reply order != request order on the wire) or a request that is empty or >=16KiB; "
               "distinct = distinct canonical case JSON (64-bit hash)."
               " Virtual time passes (0/1/20/2000 ms) at every quiescent point of the generated schedule, so that timers inside the code under test fire while handlers are parked."
-              " repeat: 1..3 unary methods called again and again (2..6 rounds of 1..4 concurrent calls, every topology, with or without metadata and deadline): every call gets its own handler's reply to its own request, each handler runs once per call - the main sub-check gives every call a method of its own."),
+              " repeat: 1..3 unary methods called again and again (2..6 rounds of 1..4 concurrent calls, every topology, with or without metadata and deadline): every call gets its own handler's reply to its own request, each handler runs once per call - the main sub-check gives every call a method of its own."
+              " net (http): the harness counts the POSTs the receiving end refused with 400 Bad Request; every envelope of these calls was produced by the library itself, so a refusal is reported as a violation even when the time budget has run out."),
         jobs=[dict(test="TestC01", quick=1920, thorough=24000), dict(test="TestC01Net", quick=64, thorough=1000, shards=4), dict(test="TestC01Reuse", quick=200, thorough=2000, shards=4), dict(test="TestC01Repeat", quick=1600, thorough=16000)],
         floors={"TestC01:reordered=true": 0.15, "TestC01:topo=proxy": 0.1, "TestC01:topo=demux": 0.1, "TestC01:ser=true": 0.25, "TestC01:time_passes=true": 0.3, "TestC01:stats=true": 0.1, "TestC01Repeat:repeat.topo=proxy": 0.08, "TestC01Repeat:repeat.plain_calls=true": 0.2},
         assumptions=COMMON_ASSUMPTIONS,
@@ -45,9 +46,10 @@ CHECKS = {
               "Non-trivial = non-OK outcome with >=1 detail, or mid-stream failure position, or any foreign/race case; distinct = canonical case hash."
               " Callers optionally use the API in unusual but legal orders: CloseSend twice; further receives after the end (which must report the same outcome again)."
               " The scripted-peer sub-check reaches the peer directly, through a goat.Proxy, or as a logical connection of a goat.Demux."
-              " Status messages range from empty to 280 KB (ASCII and multi-byte, around 16 KiB and 64 KiB)."),
-        jobs=[dict(test="TestC03", quick=4800, thorough=40000), dict(test="TestC03Foreign", quick=800, thorough=10000, shards=4), dict(test="TestC03Race", quick=400, thorough=5000, shards=4), dict(test="FuzzC03", kind="fuzz", quick=0, thorough=90)],
-        floors={"TestC03:pos=mid-stream": 0.03, "TestC03:intercept=true": 0.1, "TestC03:api_order=close-twice": 0.05, "TestC03Foreign:foreign.via=proxy": 0.08, "TestC03Foreign:foreign.via=demux": 0.08},
+              " Status messages range from empty to 280 KB (ASCII and multi-byte, around 16 KiB and 64 KiB)."
+              " cut: a handler of any of the four kinds fails, and the caller's transport read fails (9 error values incl. bare io.EOF; write side failing or not; caller parked in its receive or arriving later) while the envelope with that status is still in the transport: the caller must not be told the call succeeded."),
+        jobs=[dict(test="TestC03", quick=4800, thorough=40000), dict(test="TestC03Foreign", quick=800, thorough=10000, shards=4), dict(test="TestC03Race", quick=400, thorough=5000, shards=4), dict(test="TestC03Cut", quick=800, thorough=10000, shards=4), dict(test="FuzzC03", kind="fuzz", quick=0, thorough=90)],
+        floors={"TestC03:pos=mid-stream": 0.03, "TestC03:intercept=true": 0.1, "TestC03:api_order=close-twice": 0.05, "TestC03Foreign:foreign.via=proxy": 0.08, "TestC03Foreign:foreign.via=demux": 0.08, "TestC03Cut:cut.err=eof": 0.05, "TestC03Cut:cut.kind=unary": 0.1},
         assumptions=COMMON_ASSUMPTIONS,
     ),
     "C04": dict(
@@ -82,14 +84,14 @@ CHECKS = {
               "more than 8 digits (which goat's own client emits above 99999999 ms) may be ignored or read exactly, nothing else. end to end in a synctest bubble (virtual clock): caller timeouts from expired to 10^4h, unary and streams, 0..250ms virtual transit, "
               "or a scripted client sending the header with the key in four spellings; oracle: handler has a deadline iff the caller has, D_caller-1ms <= D_handler <= D_caller+transit, remainder <1ms conveyed as exactly 1ms, header value -> arrival+model value, malformed -> no deadline. "
               "Non-trivial = boundary digit count (1 or 8), saturating product, malformed/overlong class, remainder <1ms, non-canonical key spelling; distinct = distinct input string / case."
-              " flood: 2..5 rounds of 2..32 unary calls drawn from two timeout values per round, released from one gate on 1..3 connections of one server; each handler's deadline must be its own caller's."
+              " flood: 2..5 rounds of 2..32 unary calls drawn from two timeout values per round, released from one gate on 1..3 connections of one server; each handler's deadline must be its own caller's. In three fifths of the cases every handler takes 2, 40 or 300 ms of virtual time, so with more than eight calls in a round the later requests wait inside the server for a free worker: the handler's deadline must then lie between the caller's minus 1 ms and the caller's plus that transit."
               " abandon: 2..5 calls issued one after the other, all but the last cancelled while their request is written but not yet delivered (delayed delivery, by-reference or serialising link); each handler gets the deadline its own request carried."
               " End-to-end api-mode calls carry outgoing metadata in half of the cases."),
         jobs=[dict(test="TestC08Grid", kind="enum", quick=1, thorough=1, shards=1),
               dict(test="TestC08Strings", quick=24000, thorough=1000000),
               dict(test="TestC08E2E", quick=1600, thorough=60000),
               dict(test="FuzzC08", kind="fuzz", quick=0, thorough=180), dict(test="TestC08Conc", quick=400, thorough=4000, shards=4), dict(test="TestC08Flood", quick=1600, thorough=16000), dict(test="TestC08Abandon", quick=800, thorough=8000)],
-        floors={"TestC08Strings:parser.valid": 0.1, "TestC08Strings:parser.malformed": 0.3, "TestC08Strings:parser.overlong": 0.03, "TestC08E2E:e2e.api": 0.1, "TestC08E2E:e2e.header.valid": 0.03, "TestC08E2E:e2e.api-expired.lt1ms": 0.03},
+        floors={"TestC08Strings:parser.valid": 0.1, "TestC08Strings:parser.malformed": 0.3, "TestC08Strings:parser.overlong": 0.03, "TestC08E2E:e2e.api": 0.1, "TestC08E2E:e2e.header.valid": 0.03, "TestC08E2E:e2e.api-expired.lt1ms": 0.03, "TestC08Flood:flood.requests_waited_for_a_worker=true": 0.2},
         assumptions=COMMON_ASSUMPTIONS + ["the timeout parser is reached through the verif-tagged export VerifParseGrpcTimeout (same function the server calls)"],
     ),
     "C07": dict(
@@ -102,9 +104,10 @@ CHECKS = {
               " In a quarter of the cases the caller's context carries a custom cancellation cause (WithCancelCause / WithTimeoutCause); the statuses demanded are those of ctx.Err()."
               " during-open: the caller's context ends (cancel / deadline, with or without cause) while the opening envelope is inside a transport write that completes regardless; the handler that then starts must not keep a live context, the call returns the context's status, other streams are unaffected."
               " A send after the cancellation must fail with the context's error; io.EOF is accepted only if the stream had completed before the context ended."
-              " send-race: 1..3 bidi streams whose sender goroutine never pauses; explicit cancel after 0..60 scheduler yields; the sender must get an error, the pending receive the context's status, the handler's context must end."),
+              " send-race: 1..3 bidi streams whose sender goroutine never pauses; explicit cancel after 0..60 scheduler yields; the sender must get an error, the pending receive the context's status, the handler's context must end."
+              " In half of the scenarios the transport write that carries the caller's reset takes 0.2, 2 or 5 s of virtual time (a congested but reliable transport) before it completes; the reset must still reach the server (staged at the positions where no operation of the caller is pending: counters.positions_with_stalled_reset_write)."),
         jobs=[dict(test="TestC07", quick=1280, thorough=6000), dict(test="TestC07Open", quick=800, thorough=8000), dict(test="TestC07SendRace", quick=1600, thorough=16000), dict(test="FuzzC07", kind="fuzz", quick=0, thorough=90)],
-        floors={"TestC07:unread>=3": 0.08, "TestC07:deadline=true": 0.3, "TestC07:kind=bidi": 0.2, "TestC07:kind=server": 0.2, "TestC07:kind=client": 0.2, "TestC07:park_send=true": 0.05, "TestC07:cause=true": 0.1, "TestC07:stats=true": 0.15},
+        floors={"TestC07:unread>=3": 0.08, "TestC07:deadline=true": 0.3, "TestC07:kind=bidi": 0.2, "TestC07:kind=server": 0.2, "TestC07:kind=client": 0.2, "TestC07:park_send=true": 0.05, "TestC07:cause=true": 0.1, "TestC07:stats=true": 0.15, "TestC07:reset_write_stalls=true": 0.3},
         assumptions=COMMON_ASSUMPTIONS + ["handlers that ignore >=2 queued requests and then wait are documented head-of-line blocking and generated under C11, not here"],
     ),
     "C11": dict(
@@ -114,9 +117,10 @@ CHECKS = {
               "Oracle: probe returns its exact reply (DeadlineExceeded means everything was stuck), bystanders complete exactly, the abandoned call terminates (with the handler's status for early returns), no definitive deadlock (watchdog). "
               "Non-trivial = >=2 unread bodies, >=3 unread responses, surplus envelopes, or >=1 bystander; distinct = distinct case."
               " In caller-cancel mode on bidi streams the abandonment may instead be a SendMsg that fails to encode its message, after which the caller walks away without cancelling."
-              " In caller-cancel mode on bidi streams one SendMsg of the caller may be parked in the transport write at the cancellation."),
+              " In caller-cancel mode on bidi streams one SendMsg of the caller may be parked in the transport write at the cancellation."
+              " In handler-early mode the caller half-closes either after the handler has returned or (close_first) right after its last message, so that the half-close queues up in the server behind the unread messages while the handler is still busy; the grid covers both for every (k,n)."),
         jobs=[dict(test="TestC11Grid", kind="enum", quick=1, thorough=1, shards=1), dict(test="TestC11", quick=3200, thorough=20000), dict(test="FuzzC11", kind="fuzz", quick=0, thorough=90)],
-        floors={"TestC11:mode=handler-early": 0.15, "TestC11:mode=caller-cancel": 0.15, "TestC11:mode=client-extra": 0.12, "TestC11:mode=server-extra": 0.12, "TestC11:send_fail=true": 0.012, "TestC11:early_trailer=true": 0.03, "TestC11:park_send=true": 0.01},
+        floors={"TestC11:mode=handler-early": 0.15, "TestC11:mode=caller-cancel": 0.15, "TestC11:mode=client-extra": 0.12, "TestC11:mode=server-extra": 0.12, "TestC11:send_fail=true": 0.012, "TestC11:early_trailer=true": 0.03, "TestC11:park_send=true": 0.01, "TestC11:close_first=true": 0.08},
         assumptions=COMMON_ASSUMPTIONS + ["a caller that stops reading without cancelling is documented head-of-line blocking (the quantifier lists cancellation) and is not generated"],
     ),
     "C09": dict(
@@ -127,9 +131,11 @@ CHECKS = {
               "Oracle: at the next quiescent point every call has returned; a call succeeds only if its complete response had been delivered, and then with exactly the scripted data; streams receive a prefix of the scripted bodies and never end in io.EOF before their trailer was delivered; Header() returns; calls started afterwards and the window call fail. "
               "Non-trivial = trace length >=2, or window armed, or write side still writable; counters.positions = (scenario, position) executions."
               " The failing transport's error value is drawn from kit.FaultErrKinds (a private error, io.EOF, an error wrapping io.EOF, io.ErrUnexpectedEOF, io.ErrClosedPipe, net.ErrClosed, context.Canceled, os.ErrDeadlineExceeded): goat uses io.EOF as its own clean-end signal, so a transport reporting the peer's close that way must not read as success."
-              " late: as C02's late sub-check (responses delivered before the failure, read after it)."),
-        jobs=[dict(test="TestC09", quick=960, thorough=6000), dict(test="TestC09Storm", quick=1600, thorough=40000), dict(test="TestC09Late", quick=1600, thorough=16000), dict(test="FuzzC09", kind="fuzz", quick=0, thorough=90)],
-        floors={"TestC09:window=unary": 0.1, "TestC09:window=stream": 0.1, "TestC09:write_fails=false": 0.3, "TestC09:read_error=eof": 0.04, "TestC09:read_error=wrapped-eof": 0.04, "TestC09:stats=true": 0.15},
+              " late: as C02's late sub-check (responses delivered before the failure, read after it)."
+              " A quarter of the streaming calls have a lazy caller, which starts receiving only after the whole response script has been written (so envelopes back up inside the connection, and the read loop may be parked short of the failure point); half of those send a message before their first receive."
+              " give-up: the same executor on the family where a lazy caller's failing send (and the teardown it causes) meets the read loop's delivery of that stream's message and trailer, which had been held up behind another lazy stream."),
+        jobs=[dict(test="TestC09", quick=960, thorough=6000), dict(test="TestC09GiveUp", quick=640, thorough=6000), dict(test="TestC09Storm", quick=1600, thorough=40000), dict(test="TestC09Late", quick=1600, thorough=16000), dict(test="FuzzC09", kind="fuzz", quick=0, thorough=90)],
+        floors={"TestC09:window=unary": 0.1, "TestC09:window=stream": 0.1, "TestC09:write_fails=false": 0.3, "TestC09:read_error=eof": 0.04, "TestC09:read_error=wrapped-eof": 0.04, "TestC09:stats=true": 0.15, "TestC09:lazy_receiver=true": 0.2},
         assumptions=COMMON_ASSUMPTIONS + ["the check-then-register window is reached through the verif-tagged yield points mux.unary.beforeRegister / mux.stream.beforeRegister"],
     ),
     "C10": dict(
@@ -141,7 +147,8 @@ CHECKS = {
               " Stream kind sdl carries a 30 ms grpc-timeout and 50 ms of virtual time may pass before the ending, so that handlers that returned DeadlineExceeded have their trailers in flight when the connection ends."
               " 0..12 unary requests: with more than eight (goat's unary workers per connection) only Stop is used as the ending."
               " Ending resetfail: the response write that fails is that of a reset (answer to a body for an unknown stream)."
-              " Stream kind sbig is opened with a saturating grpc-timeout (99999999H / 2562048H / 99999999M)."),
+              " Stream kind sbig is opened with a saturating grpc-timeout (99999999H / 2562048H / 99999999M)."
+              " Goroutines: besides the census at the end of the case, a census is taken as soon as Serve has returned and all handlers have finished, while the transport (including writes parked inside it) and the context Serve was called with are still untouched: no goroutine may be running library code then."),
         jobs=[dict(test="TestC10", quick=4800, thorough=30000), dict(test="FuzzC10", kind="fuzz", quick=0, thorough=90)],
         floors={"TestC10:ending=readfail": 0.1, "TestC10:ending=writefail": 0.1, "TestC10:ending=stop": 0.12, "TestC10:parked-in-send": 0.1, "TestC10:orphan=true": 0.2},
         assumptions=COMMON_ASSUMPTIONS + ["cancelling the context passed to Serve is not among the endings the property lists and is not generated"],
@@ -181,10 +188,11 @@ CHECKS = {
               " Bursts are spread over 1..3 connections of one Server object."
               " leftover: 2..6 streams follow one another on one connection, each handler reads only a prefix of what its caller sends and returns; every handler receives a prefix of its own caller's messages and nothing a predecessor left unread."
               " order: one response write of a server stream fails once with a drawn error kind (some look transient), the stream stays open for 100 ms of virtual time: what a caller receives is its own stream's messages in order, none twice, and io.EOF only with all of them."
-              " abandon: 2..6 unary calls issued one after the other, all but the last cancelled while their (slow, context-ignoring) handler runs; handlers released in a drawn order; the surviving call gets its own reply, never the late reply of an abandoned one."),
-        jobs=[dict(test="TestC05Enum", kind="enum", quick=1, thorough=1), dict(test="TestC05", quick=3200, thorough=20000), dict(test="TestC05IDs", quick=1280, thorough=8000),
+              " abandon: 2..6 unary calls issued one after the other, all but the last cancelled while their (slow, context-ignoring) handler runs; handlers released in a drawn order; the surviving call gets its own reply, never the late reply of an abandoned one."
+              " pace: one bidirectional stream on each of 1..3 connections, both sides sending 0..8 messages back to back while each side receives at its own pace (pauses of 0..60 ms before every receive, so envelopes back up for longer than any timer inside the library); in a bubble (virtual time) and, as a separate job, in real time (pauses capped at 25 ms): each side receives exactly the other side's messages in order, then io.EOF."),
+        jobs=[dict(test="TestC05Enum", kind="enum", quick=1, thorough=1), dict(test="TestC05", quick=3200, thorough=20000), dict(test="TestC05IDs", quick=1280, thorough=8000), dict(test="TestC05Pace", quick=1200, thorough=12000, shards=4), dict(test="TestC05PaceReal", quick=96, thorough=1600, shards=8),
               dict(test="TestC05History", kind="enum", quick=1, thorough=1, shards=1), dict(test="TestC05Reuse", quick=200, thorough=2000, shards=4), dict(test="TestC05Left", quick=1600, thorough=16000), dict(test="TestC05Order", quick=1600, thorough=16000), dict(test="TestC05Abandon", quick=800, thorough=8000)],
-        floors={"TestC05:side=client": 0.25, "TestC05:side=server": 0.25, "TestC05:pooled_payloads=true": 0.3, "TestC05IDs:slow_handlers=true": 0.3, "TestC05IDs:spin_barrier=true": 0.4},
+        floors={"TestC05:side=client": 0.25, "TestC05:side=server": 0.25, "TestC05:pooled_payloads=true": 0.3, "TestC05IDs:slow_handlers=true": 0.3, "TestC05IDs:spin_barrier=true": 0.4, "TestC05Pace:pace.slow_receiver=true": 0.5},
         assumptions=COMMON_ASSUMPTIONS,
     ),
     "C14": dict(
@@ -195,9 +203,10 @@ CHECKS = {
               "Non-trivial = history with >=3 different outcomes and a round of >=8 RPCs; counters.rpcs = RPCs executed."
               " Outcome cancel-send: the cancellation lands while one SendMsg of the call is parked inside the transport write. Fault error values drawn from kit.FaultErrKinds."
               " Outcomes pre-cancelled / pre-expired / nearly-expired: calls started on a context that has ended or is about to."
-              " restart: demux topology, 1..4 bidi streams running, the server's end of the client's connection is cancelled and re-created; the streams are answered with resets by the new instance, must end on the client, and nothing stays registered on either side; unary calls afterwards work."),
+              " restart: demux topology, 1..4 bidi streams running, the server's end of the client's connection is cancelled and re-created; the streams are answered with resets by the new instance, must end on the client, and nothing stays registered on either side; unary calls afterwards work."
+              " The client connection reaches the server directly (half of the cases), through a goat.Proxy and the Demux behind it (rounds of at most two RPCs there, to stay under the proxy's known 16-envelope drop limit), or as a logical connection of a goat.Demux keyed by source."),
         jobs=[dict(test="TestC14", quick=1600, thorough=48000), dict(test="TestC14Restart", quick=480, thorough=4800), dict(test="FuzzC14", kind="fuzz", quick=0, thorough=90)],
-        floors={"TestC14:outcome=openfail": 0.2, "TestC14:outcome=cancel": 0.25, "TestC14:outcome=cancel-unread": 0.12, "TestC14:outcome=deadline": 0.25, "TestC14:outcome=reset": 0.2, "TestC14:outcome=cancel-send": 0.1, "TestC14:outcome=pre-expired": 0.1, "TestC14:outcome=nearly-expired": 0.05},
+        floors={"TestC14:outcome=openfail": 0.2, "TestC14:outcome=cancel": 0.25, "TestC14:outcome=cancel-unread": 0.12, "TestC14:outcome=deadline": 0.25, "TestC14:outcome=reset": 0.2, "TestC14:outcome=cancel-send": 0.1, "TestC14:outcome=pre-expired": 0.1, "TestC14:outcome=nearly-expired": 0.05, "TestC14:via=proxy": 0.15, "TestC14:via=demux": 0.15},
         assumptions=COMMON_ASSUMPTIONS + ["registry sizes are read through the verif-tagged accessors VerifClientCalls / VerifServerStreams"],
     ),
     "C20": dict(
@@ -225,9 +234,10 @@ CHECKS = {
               "attach: for 4..32 undiallable names a peer attaches (AddClient) from one goroutine at the very moment 1..3 envelopes for that name are written from another, with no quiescent point in between; the racing envelopes may be forwarded (in order) or refused, "
               "but an envelope sent by the same or another client after both have completed must reach the attached connection exactly once. "
               "Non-trivial = >=2 sources to one destination, a dial-on-demand peer, a rewrite, >=2 proxy clients, or a burst."
-              " In a quarter of the envelope-level cases client c0 attaches again under its name before envelope k (the old connection stays up): nothing may reach the superseded connection afterwards."),
-        jobs=[dict(test="TestC16", quick=1600, thorough=20000), dict(test="TestC16RPC", quick=960, thorough=12000), dict(test="TestC16Burst", quick=64, thorough=1000, shards=4), dict(test="TestC16Attach", quick=1600, thorough=24000), dict(test="FuzzC16", kind="fuzz", quick=0, thorough=90)],
-        floors={"TestC16:dial_on_demand=true": 0.3, "TestC16:rewrite=alias": 0.1, "TestC16:late_dialable=true": 0.05, "TestC16Burst:burst.rpc=true": 0.2, "TestC16Attach:attach.sender=other": 0.3, "TestC16:reattach=true": 0.1},
+              " In a quarter of the envelope-level cases client c0 attaches again under its name before envelope k (the old connection stays up): nothing may reach the superseded connection afterwards."
+              " write-fault: a server-streaming or bidirectional call relayed client -> proxy -> demux -> server, 2..10 messages; one proxy-to-client write fails once with a drawn error kind (some look transient); what the caller receives must be a prefix of what the handler sent, and io.EOF only after all of it."),
+        jobs=[dict(test="TestC16", quick=1600, thorough=20000), dict(test="TestC16RPC", quick=960, thorough=12000), dict(test="TestC16Burst", quick=64, thorough=1000, shards=4), dict(test="TestC16Attach", quick=1600, thorough=24000), dict(test="TestC16WriteFault", quick=800, thorough=10000, shards=4), dict(test="FuzzC16", kind="fuzz", quick=0, thorough=90)],
+        floors={"TestC16:dial_on_demand=true": 0.3, "TestC16:rewrite=alias": 0.1, "TestC16:late_dialable=true": 0.05, "TestC16Burst:burst.rpc=true": 0.2, "TestC16Attach:attach.sender=other": 0.3, "TestC16:reattach=true": 0.1, "TestC16WriteFault:fault.err=deadline": 0.05},
         assumptions=COMMON_ASSUMPTIONS + ["loss is attributed to buffer overflow through the verif-tagged counter at the proxy's drop site"],
     ),
     "C17": dict(
@@ -238,9 +248,10 @@ CHECKS = {
               "after re-attachment traffic reaches the new connection; after cancellation nothing is forwarded, Serve returns and the synctest bubble ends with no goroutine left. Non-trivial = every case (all involve a fault, a spoof or a cancellation)."
               " The bad peer's transport optionally ignores the context passed to Read (as a net.Conn without deadlines does); fault error values are drawn from kit.FaultErrKinds; mode attach-race: a peer attaches at the very moment the first envelope for its undiallable name arrives."
               " Spoofed envelopes optionally carry sender-chosen route fields (a route record ending in the sender's own name, the victim's name, the proxy's name; a return route)."
-              " The bad peer's connection is either attached by the peer or dialled on demand by the proxy."),
+              " The bad peer's connection is either attached by the peer or dialled on demand by the proxy."
+              " odd-route: between honest rounds c0 sends one envelope with its true source but unusual routing fields - destination = the proxy's own name / empty / c0 itself / a 70 KB name / c1, return route absent / an empty non-nil list / [\"\"] / [proxy's name] / [c0] / [c1]; the proxy must survive, deliver it exactly where the route leads (or nowhere), and keep serving."),
         jobs=[dict(test="TestC17", quick=3200, thorough=30000), dict(test="FuzzC17", kind="fuzz", quick=0, thorough=90)],
-        floors={"TestC17:mode=cancel": 0.1, "TestC17:mode=reattach/old_first=false/read": 0.02, "TestC17:mode=spoof/other-source": 0.025, "TestC17:mode=badpeer/slow-failing-dial": 0.012, "TestC17:badpeer.deaf_read=true": 0.05, "TestC17:mode=attach-race": 0.1, "TestC17:spoof.route_fields=true": 0.05, "TestC17:badpeer.dialled=true": 0.05},
+        floors={"TestC17:mode=cancel": 0.1, "TestC17:mode=reattach/old_first=false/read": 0.02, "TestC17:mode=spoof/other-source": 0.025, "TestC17:mode=badpeer/slow-failing-dial": 0.012, "TestC17:badpeer.deaf_read=true": 0.05, "TestC17:mode=attach-race": 0.1, "TestC17:spoof.route_fields=true": 0.05, "TestC17:badpeer.dialled=true": 0.05, "TestC17:mode=odd-route": 0.1, "TestC17:odd.next=empty-list": 0.01},
         assumptions=COMMON_ASSUMPTIONS,
     ),
     "C18": dict(
@@ -251,7 +262,8 @@ CHECKS = {
               "rpc: the C01/C02 generators from 2..4 logical clients through one shared transport into one Server via Demux keyed by source, same oracles. Non-trivial = >=2 keys, a Cancel or a Stop."
               " storm: a feeder goroutine writes 1..4 envelopes for each of 2..24 keys without pausing while a second goroutine cancels a drawn subset of the keys; never-cancelled keys are announced once and receive everything in order, cancelled keys never see duplicates, reordering or foreign envelopes. writefault: one write on the shared transport fails (drawn error value); later arrivals for the key are still delivered, other keys are undisturbed, Cancel still works."
               " Envelopes in the model-based histories carry status / trailer / reset / header metadata as a function of their id and are compared with proto.Equal in both directions."
-              " Key 0 optionally has an unusual value (empty string, blank, separators, non-ASCII)."),
+              " Key 0 optionally has an unusual value (empty string, blank, separators, non-ASCII)."
+              " parked: once the stalled shared-transport write has completed, every write the logical connection had accepted (returned nil) before the key was cancelled is on the shared transport exactly once, and none of the refused ones is."),
         jobs=[dict(test="TestC18", quick=6400, thorough=80000), dict(test="TestC18RPC", quick=320, thorough=8000), dict(test="TestC18Parked", quick=300, thorough=3000, shards=4), dict(test="TestC18Storm", quick=1600, thorough=16000), dict(test="TestC18WriteFault", quick=640, thorough=6400), dict(test="FuzzC18", kind="fuzz", quick=0, thorough=90)],
         floors={"TestC18:cancel=true": 0.3, "TestC18:stop=true": 0.03, "TestC18:cancel_while_parked=true": 0.03, "TestC18Storm:storm.cancels=true": 0.5, "TestC18Storm:storm.write_faults=true": 0.1},
         assumptions=COMMON_ASSUMPTIONS,
@@ -267,7 +279,8 @@ CHECKS = {
               " concurrent-writers: 2..8 goroutines write 1..3 envelopes each on one connection of each transport at the same time (goat's own callers do); every envelope is read exactly once, unchanged, and each writer's envelopes stay in that writer's order."
               " concurrent-writers over HTTP also counts the logical connections announced for the single source: more than one is a violation."
               " object-reuse: one *Rpc object is changed in place (body, method, header metadata, status message lengths around the varint boundaries) between 2..8 writes over WebSocket and HTTP; each write must carry what the object held at that moment."
-              " ctx: for HTTP reads 0..2 other readers are already parked on the same logical connection."),
+              " ctx: for HTTP reads 0..2 other readers are already parked on the same logical connection."
+              " ctx (http write): after the blocked Write has failed, 0..2 further Writes on the same connection object with a context that is already done must fail too, without a panic."),
         jobs=[dict(test="TestC19RoundTrip", quick=480, thorough=8000), dict(test="TestC19Raw", quick=800, thorough=20000), dict(test="TestC19Ctx", quick=48, thorough=400, shards=8),
               dict(test="TestC19Idle", quick=400, thorough=6000, shards=8), dict(test="TestC19Conc", quick=320, thorough=4000), dict(test="TestC19Reuse", quick=480, thorough=6000), dict(test="FuzzC19Decode", kind="fuzz", quick=0, thorough=120)],
         floors={"TestC19RoundTrip:rt.websocket": 0.25, "TestC19RoundTrip:rt.http": 0.2, "TestC19RoundTrip:rt.channel": 0.1, "TestC19Conc:conc.http": 0.25, "TestC19Idle:idle.fresh=true": 0.15, "TestC09Late:late.some_complete=true": 0.4},
